@@ -16,10 +16,16 @@ Built next to Model/Crdt.lean (same heap `Doc := Ticket → Option Elem`). What 
 Abstractions (named gaps):
   * one heap entry per identity: after an array element `x` with content is restored under a new
     identity `x'`, Go holds two physical copies of every descendant (below the tombstone `x` and
-    below `x'`). The model keeps one entry per descendant (the registered, newest one) and
-    remembers in `tw` ("twinned") which identities have such a dead twin, because Go's
-    `isRemovedOrOrphaned` resolves the parent of a twinned identity to the DEAD copy (the parents
-    map is filled in traversal order, the tombstone comes later in the array) and therefore skips.
+    below `x'`). The model keeps one entry per descendant: the REGISTERED one. With the repair
+    hooks/fix-c14-reconcile-parent.patch (switch `fixReconcileParent := true`, see below) that is
+    all Go reads: `isRemovedOrOrphaned` lets only the registered instance define a parent,
+    `RegisterElement` does not let what lies below a tombstone take a registration away, and
+    `deregisterElement` only drops a registration of the element being collected. For the tree
+    BEFORE the repair (`false` instances) `tw` ("twinned") remembers which identities have a dead
+    twin, because there `isRemovedOrOrphaned` resolved the parent of a twinned identity to the
+    DEAD copy (parents map filled in traversal order, the tombstone comes later) and skipped;
+    the old tree also ran operations with a stale parent on the dead copy, which a one-entry heap
+    cannot follow (harness argument `reid=old` keeps those traces out of the comparison).
   * `Root.DeregisterElement` under `OpSourceUndoRedo` only matters for GC registries (see the
     fragment Model/UndoGc.lean); element-map entries of unreachable elements are kept.
   * a restoring `Set` that LOSES the LWW comparison against a live occupant of the SAME identity (two
@@ -408,19 +414,32 @@ def push (stack : List (List UOp)) (e : List UOp) : List (List UOp) :=
 
 def rw (a b t : Ticket) : Ticket := if t = a then b else t
 
-/-- one case of `History.ReconcileCreatedAt` -/
-def reconcileOp (a b : Ticket) : UOp → UOp
-  | .arraySet p target v ts => .arraySet p (rw a b target) v ts
-  | .remove p target ts => .remove p (rw a b target) ts
-  | .move p prev target ts => .move p (rw a b prev) (rw a b target) ts
-  | .add p prev v ts => .add p (rw a b prev) v ts
-  | op => op
+/-- ONE-LINE SWITCH. `true`: the model of the tree WITH hooks/fix-c14-reconcile-parent.patch
+    (`ReconcileCreatedAt` also rewrites `parentCreatedAt`, the rest of the entry being executed is
+    reconciled too, `isRemovedOrOrphaned` lets only the registered instance of an identity define
+    its parent, `RegisterElement` does not let what lies below a tombstone take a registration
+    away). `false`: the tree before that repair (listed finding F-C14-array-reid in full).
+    Every definition below exists as `…W (fx : Bool)`; the unsuffixed name is the instance at
+    this switch, so the `false` instance stays available for the witnesses of the old behaviour. -/
+def fixReconcileParent : Bool := true
 
-def reconcileStack (a b : Ticket) (s : List (List UOp)) : List (List UOp) :=
-  s.map (fun e => e.map (reconcileOp a b))
+/-- the parent of a stacked operation is rewritten only by the repaired `ReconcileCreatedAt` -/
+def rwp (fx : Bool) (a b t : Ticket) : Ticket := if fx then rw a b t else t
 
-def Hist.reconcile (h : Hist) (a b : Ticket) : Hist :=
-  { h with undo := reconcileStack a b h.undo, redo := reconcileStack a b h.redo }
+/-- one case of `History.ReconcileCreatedAt` (`ReconcileEntryCreatedAt` in the repaired tree) -/
+def reconcileOpW (fx : Bool) (a b : Ticket) : UOp → UOp
+  | .arraySet p target v ts => .arraySet (rwp fx a b p) (rw a b target) v ts
+  | .remove p target ts => .remove (rwp fx a b p) (rw a b target) ts
+  | .move p prev target ts => .move (rwp fx a b p) (rw a b prev) (rw a b target) ts
+  | .add p prev v ts => .add (rwp fx a b p) (rw a b prev) v ts
+  | .set p k v ts => .set (rwp fx a b p) k v ts
+  | .increase p dl ts => .increase (rwp fx a b p) dl ts
+
+def reconcileStackW (fx : Bool) (a b : Ticket) (s : List (List UOp)) : List (List UOp) :=
+  s.map (fun e => e.map (reconcileOpW fx a b))
+
+def Hist.reconcileW (fx : Bool) (h : Hist) (a b : Ticket) : Hist :=
+  { h with undo := reconcileStackW fx a b h.undo, redo := reconcileStackW fx a b h.redo }
 
 def UOp.withTs : UOp → Ticket → UOp
   | .set p k v _, t => .set p k v t
@@ -435,8 +454,10 @@ def twinIds : UOp → List Ticket
   | .add _ _ v _ => v.sub.map (·.1)
   | _ => []
 
-def addTwins (tw : Ticket → Bool) (ids : List Ticket) : Ticket → Bool :=
-  fun t => tw t || ids.contains t
+/-- before the repair the skip rule resolves a twinned identity to its dead copy; after it only the
+    registered (live) instance counts, so nothing is ever marked -/
+def addTwinsW (fx : Bool) (tw : Ticket → Bool) (ids : List Ticket) : Ticket → Bool :=
+  if fx then tw else fun t => tw t || ids.contains t
 
 /-- result of running the operations of one change -/
 structure Run where
@@ -447,50 +468,64 @@ structure Run where
   executed : List UOp := []
   failed : Bool := false
 
+/-- what the skip rule sees of the twin marks: nothing in the repaired tree (`isRemovedOrOrphaned`
+    lets only the registered instance of an identity define its parent) -/
+def twOf (fx : Bool) (tw : Ticket → Bool) : Ticket → Bool := if fx then fun _ => false else tw
+
 /-- `Change.Execute`: skipped operations are dropped, the first real error aborts (no rollback) -/
-def runOps (src : Source) : Run → List UOp → Run
+def runOpsW (fx : Bool) (src : Source) : Run → List UOp → Run
   | r, [] => r
   | r, op :: rest =>
-    match uexecute r.doc r.tw src op with
+    match uexecute r.doc (twOf fx r.tw) src op with
     | .ok (d', rev) =>
-      runOps src { r with doc := d', tw := addTwins r.tw (twinIds op),
-                          revs := r.revs ++ rev.toList, executed := r.executed ++ [op] } rest
-    | .error .skipped => runOps src r rest
+      runOpsW fx src { r with doc := d', tw := addTwinsW fx r.tw (twinIds op),
+                              revs := r.revs ++ rev.toList, executed := r.executed ++ [op] } rest
+    | .error .skipped => runOpsW fx src r rest
     | .error (.err _) => { r with failed := true }
 
-def reconcileSets (h : Hist) : List UOp → Hist
+def reconcileSetsW (fx : Bool) (h : Hist) : List UOp → Hist
   | [] => h
-  | .arraySet _ target v _ :: r => reconcileSets (h.reconcile target v.id) r
-  | _ :: r => reconcileSets h r
+  | .arraySet _ target v _ :: r => reconcileSetsW fx (h.reconcileW fx target v.id) r
+  | _ :: r => reconcileSetsW fx h r
 
 /-- `Document.Update` after the updater ran: execute on the root with `OpSourceLocal`, reconcile for
     executed ArraySets, push the reverses as ONE entry, clear redo when observable. -/
-def doChange (h : Hist) (ops : List UOp) : Hist :=
+def doChangeW (fx : Bool) (h : Hist) (ops : List UOp) : Hist :=
   if ops.isEmpty then h else
-  let r := runOps .loc { doc := h.doc, tw := h.tw } ops
+  let r := runOpsW fx .loc { doc := h.doc, tw := h.tw } ops
   if r.failed then { h with doc := r.doc, tw := r.tw } else
-  let h1 := reconcileSets h r.executed
+  let h1 := reconcileSetsW fx h r.executed
   let undo' := if r.revs.isEmpty then h1.undo else push h1.undo r.revs.reverse
   { h1 with doc := r.doc, tw := r.tw, undo := undo',
             redo := if r.executed.isEmpty then h1.redo else [],
             lamport := h.lamport + 1 }
 
+/-- the renamings earlier operations of the SAME entry caused, applied to a later one
+    (`ReconcileEntryCreatedAt(entries[i+1:], …)`; only in the repaired `executeUndoRedo`) -/
+def applyRen (fx : Bool) (ren : List (Ticket × Ticket)) (op : UOp) : UOp :=
+  if fx then ren.foldl (fun o p => reconcileOpW fx p.1 p.2 o) op else op
+
 /-- the loop of `executeUndoRedo` over the popped entry: fresh ticket per operation, re-identify the
-    values of Add / ArraySet and reconcile the STACKS (not the rest of the popped entry). -/
-def reticket (h : Hist) : Nat → List UOp → Hist × List UOp
-  | _, [] => (h, [])
-  | i, op :: rest =>
+    values of Add / ArraySet and reconcile the stacks (and, repaired, the rest of the entry: `ren`). -/
+def reticketGo (fx : Bool) (h : Hist) : Nat → List (Ticket × Ticket) → List UOp → Hist × List UOp
+  | _, _, [] => (h, [])
+  | i, ren, op0 :: rest =>
     let t : Ticket := ⟨h.lamport + 1, i, h.actor⟩
-    match op with
+    match applyRen fx ren op0 with
     | .add p prev v _ =>
-      let r := reticket (h.reconcile v.id t) (i + 1) rest
+      let r := reticketGo fx (h.reconcileW fx v.id t) (i + 1) (ren ++ [(v.id, t)]) rest
       (r.1, .add p prev (v.reid t) t :: r.2)
     | .arraySet p target v _ =>
-      let r := reticket (h.reconcile target t) (i + 1) rest
+      -- repaired: the restored value's own old identity follows it as well
+      let h' := if fx then (h.reconcileW fx target t).reconcileW fx v.id t else h.reconcileW fx target t
+      let r := reticketGo fx h' (i + 1) (ren ++ [(target, t), (v.id, t)]) rest
       (r.1, .arraySet p target (v.reid t) t :: r.2)
     | op =>
-      let r := reticket h (i + 1) rest
+      let r := reticketGo fx h (i + 1) ren rest
       (r.1, op.withTs t :: r.2)
+
+def reticketW (fx : Bool) (h : Hist) (i : Nat) (ops : List UOp) : Hist × List UOp :=
+  reticketGo fx h i [] ops
 
 inductive Outcome
   /-- empty stack (or empty entry): nothing happened -/
@@ -503,14 +538,14 @@ inductive Outcome
   | failed (ops : List UOp)
 
 /-- `executeUndoRedo(isUndo)` -/
-def undoRedo (h : Hist) (isUndo : Bool) : Hist × Outcome :=
+def undoRedoW (fx : Bool) (h : Hist) (isUndo : Bool) : Hist × Outcome :=
   match (if isUndo then h.undo else h.redo) with
   | [] => (h, .nothing)
   | entry :: restStack =>
     let h0 : Hist := if isUndo then { h with undo := restStack } else { h with redo := restStack }
     if entry.isEmpty then (h0, .nothing) else
-    let (h1, ops) := reticket h0 1 entry
-    let r := runOps .undoRedo { doc := h1.doc, tw := h1.tw } ops
+    let (h1, ops) := reticketW fx h0 1 entry
+    let r := runOpsW fx .undoRedo { doc := h1.doc, tw := h1.tw } ops
     -- the change runs on the clone first: an error returns before the root is touched
     if r.failed then (h1, .failed ops) else
     let revs := r.revs.reverse
@@ -521,13 +556,25 @@ def undoRedo (h : Hist) (isUndo : Bool) : Hist × Outcome :=
     if r.executed.isEmpty then ({ h2 with doc := r.doc, tw := r.tw }, .noop)
     else ({ h2 with doc := r.doc, tw := r.tw, lamport := h.lamport + 1 }, .change ops)
 
+/-- a remote change: operations with source `remote`, then `SyncClocks` (lamport := max + 1) -/
+def applyRemoteW (fx : Bool) (h : Hist) (changeLamport : Int) (ops : List UOp) : Hist :=
+  let r := runOpsW fx .remote { doc := h.doc, tw := h.tw } ops
+  { h with doc := r.doc, tw := r.tw, lamport := Max.max h.lamport changeLamport + 1 }
+
+/-! ### the instances at the switch (what the driver runs and the theorems speak about) -/
+
+def reconcileOp (a b : Ticket) : UOp → UOp := reconcileOpW fixReconcileParent a b
+def reconcileStack (a b : Ticket) (s : List (List UOp)) : List (List UOp) := reconcileStackW fixReconcileParent a b s
+def Hist.reconcile (h : Hist) (a b : Ticket) : Hist := h.reconcileW fixReconcileParent a b
+def addTwins (tw : Ticket → Bool) (ids : List Ticket) : Ticket → Bool := addTwinsW fixReconcileParent tw ids
+def runOps (src : Source) (r : Run) (ops : List UOp) : Run := runOpsW fixReconcileParent src r ops
+def reconcileSets (h : Hist) (ops : List UOp) : Hist := reconcileSetsW fixReconcileParent h ops
+def doChange (h : Hist) (ops : List UOp) : Hist := doChangeW fixReconcileParent h ops
+def reticket (h : Hist) (i : Nat) (ops : List UOp) : Hist × List UOp := reticketW fixReconcileParent h i ops
+def undoRedo (h : Hist) (isUndo : Bool) : Hist × Outcome := undoRedoW fixReconcileParent h isUndo
 def undo (h : Hist) : Hist := (undoRedo h true).1
 def redo (h : Hist) : Hist := (undoRedo h false).1
-
-/-- a remote change: operations with source `remote`, then `SyncClocks` (lamport := max + 1) -/
-def applyRemote (h : Hist) (changeLamport : Int) (ops : List UOp) : Hist :=
-  let r := runOps .remote { doc := h.doc, tw := h.tw } ops
-  { h with doc := r.doc, tw := r.tw, lamport := Max.max h.lamport changeLamport + 1 }
+def applyRemote (h : Hist) (changeLamport : Int) (ops : List UOp) : Hist := applyRemoteW fixReconcileParent h changeLamport ops
 
 def visible (h : Hist) : String := marshal h.doc 64 rootId
 
